@@ -329,8 +329,8 @@ class AnsiString:
         start = self._slice_val_to_idx(start, 0)
         end = self._slice_val_to_idx(end, len(self._s))
 
-        if not settings or start >= len(self._s) or end <= start:
-            # Ignore - nothing to apply
+        if (not settings and not isinstance(settings, int)) or start >= len(self._s) or end <= start:
+            # Ignore - nothing to apply (the int 0 is the RESET setting, not an empty set)
             return
 
         ansi_settings = _AnsiSettingPoint._scrub_ansi_settings(settings, make_unique=True)
@@ -379,12 +379,12 @@ class AnsiString:
         start = self._slice_val_to_idx(start, 0)
         end = self._slice_val_to_idx(end, len(self._s))
 
-        if (settings is not None and not settings) or start >= len(self._s) or end <= start:
-            # Ignore - nothing to apply
+        if (settings is not None and not settings and not isinstance(settings, int)) or start >= len(self._s) or end <= start:
+            # Ignore - nothing to apply (the int 0 is the RESET setting, not an empty set)
             return
 
         # Parse the settings before anything is modified so that nothing changes when this raises
-        if not settings:
+        if settings is None:
             ansi_settings = None
         else:
             ansi_settings = _AnsiSettingPoint._scrub_ansi_settings(settings)
